@@ -711,6 +711,12 @@ class _LintFixture(_np.ndarray):
             seen = len(self.array)
             self._seen = seen
         return seen
+    def cached_identity(self, flag):
+        kept = getattr(self, '_kept', None)
+        if kept is not None and kept[0] is self.array:
+            return kept[1]
+        self._kept = (self.array, len(self.array))
+        return self._kept[1]
     def cached_tuple(self, east, north, up):
         same = hasattr(self, 'grid') and (east, north) == (self.east, self.north)
         self.east = east
@@ -856,7 +862,7 @@ def self_test(chk, prog):
         signature(sink, p5, [FIXTURE_HOST])
     except Exception as e:
         chk.error("lint SIGNATURE crashed on its positive example: %s: %s" % (type(e).__name__, e))
-    for name in list(ALL) + ["SHADOW-REBIND.memo", "SHADOW-REBIND.derived", "CACHE-KEY.property", "CACHE-KEY.early", "CACHE-KEY.tuple", "LATCH.data", "CASE-MIXED.ctor", "SIGN-CANON.rows"]:
+    for name in list(ALL) + ["SHADOW-REBIND.memo", "SHADOW-REBIND.derived", "CACHE-KEY.property", "CACHE-KEY.early", "CACHE-KEY.tuple", "LATCH.data", "LATCH.identity", "CASE-MIXED.ctor", "SIGN-CANON.rows"]:
         fired = name in sink.rules
         chk.canary("lint %s fires on its embedded positive example" % name, fired, "" if fired else "no finding on the fixture")
 
@@ -1922,6 +1928,26 @@ def latch(chk, prog, files):
                     held[s0.targets[0].id] = v0.args[1].value
                 elif isinstance(v0, ast.Attribute) and isinstance(v0.value, ast.Name) and v0.value.id == "self":
                     held[s0.targets[0].id] = v0.attr
+        # LATCH.identity: a remembered result declared valid because the data buffer is still the same OBJECT (`cached[0] is self.array`): in-place writers keep
+        # the buffer and change its content, so the test cannot see them
+        for node in ast.walk(f.node):
+            if not (isinstance(node, ast.If) and node.body and isinstance(node.body[-1], ast.Return)):
+                continue
+            for cmp2 in ast.walk(node.test):
+                if not (isinstance(cmp2, ast.Compare) and len(cmp2.ops) == 1 and isinstance(cmp2.ops[0], ast.Is)):
+                    continue
+                sides = [cmp2.left, cmp2.comparators[0]]
+                data = [x for x in sides if isinstance(x, ast.Attribute) and isinstance(x.value, ast.Name) and x.value.id == "self" and x.attr in ("array", "A")]
+                other = [x for x in sides if x not in data]
+                if not data or not other or isinstance(other[0], ast.Constant):
+                    continue
+                roots = {y.id for y in ast.walk(other[0]) if isinstance(y, ast.Name)}
+                from_state = bool(roots & set(held)) or any(isinstance(y, ast.Attribute) and isinstance(y.value, ast.Name) and y.value.id == "self" for y in ast.walk(other[0]))
+                if from_state:
+                    n += 1
+                    chk.finding("LATCH.identity", f.module.rel, f.qname, "validity test %s" % ast.unparse(cmp2),
+                                "the remembered result is reused while `%s` holds, i.e. while the data buffer is the same object; in-place methods and item assignment change "
+                                "the buffer's content without replacing it, so after them the method returns the result for the old content" % ast.unparse(cmp2), line=cmp2.lineno)
         for node in ast.walk(f.node):
             if not isinstance(node, ast.If):
                 continue
